@@ -159,6 +159,18 @@ class VLoop(asyncio.BaseEventLoop):
             self.close()
 
 
+_ELDER = []
+
+
+def elder_loop():
+    """an event loop older than every scenario's own and never closed: wrapper objects are module-level things that a
+    program may use on one loop and later - or meanwhile - on another, so the drivers make the FIRST use of a wrapper on
+    this loop and the use under test on the scenario's own"""
+    if not _ELDER:
+        _ELDER.append(VLoop(start=1000.0))
+    return _ELDER[0]
+
+
 class VClock:
     """Patches time.monotonic / time.sleep and every haiway module global bound to them so that
     the library reads the loop's virtual clock.  Works by identity of the original functions, so
